@@ -5,6 +5,7 @@ go 1.22
 require (
 	github.com/bolkedebruin/rdpgw v0.0.0
 	github.com/coreos/go-oidc/v3 v3.9.0
+	github.com/go-jose/go-jose/v4 v4.0.5
 	github.com/prometheus/client_golang v1.19.0
 	github.com/prometheus/client_model v0.6.0
 	golang.org/x/crypto v0.32.0
@@ -18,7 +19,6 @@ require (
 	github.com/fatih/structs v1.1.0 // indirect
 	github.com/fsnotify/fsnotify v1.7.0 // indirect
 	github.com/go-jose/go-jose/v3 v3.0.4 // indirect
-	github.com/go-jose/go-jose/v4 v4.0.5 // indirect
 	github.com/go-viper/mapstructure/v2 v2.0.0-alpha.1 // indirect
 	github.com/golang/protobuf v1.5.4 // indirect
 	github.com/google/uuid v1.6.0 // indirect
